@@ -693,7 +693,9 @@ impl Value {
 
                 let variant_name = match type_ {
                     TypeDef::BuiltIn(_, _) => {
-                        unreachable!("Enum type names should never map to built-in types")
+                        // The enum is not defined in this environment,
+                        // where its name is a built-in type.
+                        format!("{type_name}__OLD_DEFINITION::{variant_idx}")
                     }
                     TypeDef::Enum(enum_info) => match enum_info.variants.get(*variant_idx) {
                         Some(variant_sym) => {
@@ -725,7 +727,7 @@ impl Value {
 
                 match type_ {
                     TypeDef::BuiltIn(_, _) => {
-                        unreachable!("Enum type names should never map to built-in types")
+                        format!("{type_name}__OLD_DEFINITION::{variant_idx} (constructor)")
                     }
                     TypeDef::Enum(enum_info) => match enum_info.variants.get(*variant_idx) {
                         Some(variant_sym) => {
